@@ -6,6 +6,42 @@ PID = "C05"
 MINE = {"analyzer", "analyzer_outputs", "performance", "error_rate", "quick", "read_raised"}
 
 
+def postselection_phase(chk, th):
+    """LwPostSelection: the rule object every conditioned read relies on - model checked, every reachable history replayed"""
+    from .. import tlc, replay_engine
+    from ..tlc import MachineryError
+    margs = {(0,), (1,), (0, 1), (1, 2), (0, 2), (1, 1), (-1,)} | ({(2,), (0, -1), (0, 1, 2), (3,), (2, 3)} if th else set())
+    cargs = {(0,), (1,), (0, 2), (1, 2), (-1,)} | ({(2,), (0, 1), (1, -1), (3,)} if th else set())
+    nm = 4 if th else 3
+    for multi in (False, True):
+        consts = dict(NModes=nm, MaxPhot=3 if th else 2, MaxRules=3 if (multi and not th) else 3, MaxCalls=3, Multi=multi, ModeArgs=margs, CountArgs=cargs)
+        name = "C05_ps_%s" % ("multi" if multi else "single")
+        wd = tlc.workdir(name)
+        tlc.copy_specs(wd, {"LwPostSelection"})
+        tlc.write_mc(wd, "MC", "LwPostSelection", consts)
+        tlc.write_cfg(wd, "MC", consts, invariants=["ModesInv", "DisjointInv", "NonNegInv", "OrderIrrelevant"], properties=["Monotone", "RejectFrame"])
+        res = tlc.run(wd, "MC", dump=True, timeout=1800)
+        tlc.require_clean_run(res, name)
+        for v in res.violations:
+            raise MachineryError("LwPostSelection violates %s" % v["name"])
+        chk.add_tlc("LwPostSelection multi_rules=%s" % multi, res, "invariants ModesInv DisjointInv NonNegInv OrderIrrelevant; action properties Monotone RejectFrame")
+        frac = min(1.0, (60000.0 if th else 6000.0) / max(1, res.distinct))
+        n = nv = 0
+        for r in replay_engine.replay_dump(res.dump, "harness.adapters.postselection", "worker", {"multi": multi, "nmodes": nm, "maxphot": consts["MaxPhot"]},
+                                           frac=frac, seed=chk.seed, keep=lambda t: '"validate"' in t):
+            n += 1
+            h = r["hist"]
+            nv += bool(h) and h[-1][1] == "validate"
+            chk.count(key="ps%s%r" % (multi, h), nontrivial=len(h) >= 2)
+            for clause, detail in r["findings"]:
+                chk.violation(clause, detail, script={"module": "LwPostSelection", "multi_rules": multi, "hist": h}, sig={"clause": clause})
+        if nv == 0:
+            raise MachineryError("vacuity: no validate read replayed for LwPostSelection")
+        chk.traces_validated += n
+        chk.add_phase("replay LwPostSelection multi_rules=%s" % multi, histories=n, ending_in_validate=nv, sampled_fraction=round(frac, 4))
+        tlc.cleanup(name)
+
+
 def run(tier):
     chk = ec.run_reads(PID, tier, {"analyze", "quick"}, MINE, ["AnalyzeBound", "QuickBound"],
                        "cases = construction programs of LwCircuit ending in Analyzer.analyze / QuickSampler.probability_distribution for every input "
@@ -13,6 +49,7 @@ def run(tier):
                        "sampler distribution (AnalyzerTable, QuickTable) and TLC evaluates them exactly; the real objects must agree (probabilities, "
                        "performance, error rate, renormalised quick distribution) and must work on every circuit the sampler accepts. non-trivial = "
                        "at least one construction call before the read; distinct = distinct call sequences", psu=ec.PSU_ALL, nsim=1600, frac=0.15)
+    postselection_phase(chk, tier == "thorough")
     cc.trace_phase(chk, PID, "wiring_float_reads", 1600 if tier == "thorough" else 240, "wiring", MINE, numeric=False, reads={"analyze", "quick"})
     cc.trace_phase(chk, PID, "components_float_reads", 1600 if tier == "thorough" else 160, "components", MINE, numeric=False, reads={"analyze", "quick"})
     return chk.finish()
